@@ -541,3 +541,45 @@ fn fat16_chain_free_twin() {
     kani::cover!(n == 5 && members[1] < members[0]);
     kani::cover!(n == 1);
 }
+
+// ---- contracts of ClusterIterator::truncate / free for the callers in fs.rs (chain_glue_* there) ----
+// (the contracts themselves are proved on the real bodies in the Verus unit table_iter)
+
+pub(crate) static mut G_ITER_CLUSTER: Option<u32> = None;
+pub(crate) static mut G_ITER_FT: Option<FatType> = None;
+pub(crate) static mut G_ITER_FREED: u32 = 0;
+pub(crate) static mut G_ITER_OP: u8 = 0;
+
+fn stub_iter_common<B, E, S>(this: &mut ClusterIterator<B, E, S>, op: u8) -> Result<u32, Error<E>> {
+    unsafe {
+        G_ITER_CLUSTER = this.cluster;
+        G_ITER_FT = Some(this.fat_type);
+        G_ITER_OP = op;
+    }
+    if kani::any() {
+        // (the number reported is chosen by the calling harness, which knows the callee's postcondition on it)
+        Ok(unsafe { G_ITER_FREED })
+    } else {
+        Err(Error::CorruptedFileSystem)
+    }
+}
+
+pub(crate) fn stub_iter_truncate<B, E, S>(this: &mut ClusterIterator<B, E, S>) -> Result<u32, Error<E>>
+where
+    B: BorrowMut<S>,
+    E: IoError,
+    S: Read + Write + Seek,
+    Error<E>: From<S::Error>,
+{
+    stub_iter_common(this, 1)
+}
+
+pub(crate) fn stub_iter_free<B, E, S>(this: &mut ClusterIterator<B, E, S>) -> Result<u32, Error<E>>
+where
+    B: BorrowMut<S>,
+    E: IoError,
+    S: Read + Write + Seek,
+    Error<E>: From<S::Error>,
+{
+    stub_iter_common(this, 2)
+}
